@@ -57,6 +57,13 @@ pub struct SpendSpec {
     /// its own bundle, most recent first — the very list cells a builder creates for them.
     #[serde(default)]
     pub opaque: u8,
+    /// non-zero: `coin.puzzle_hash` is NOT the tree hash of the puzzle reveal ("any bundles":
+    /// the builders take the coin as given and never look at that field; consensus derives the
+    /// hash from the reveal). 1: the hash of the puzzle `1`, 2: all zero, 3: one of three fixed
+    /// labels shared by many spends. Such a spend fails in run_spendbundle, so its attempt never
+    /// counts as truthful.
+    #[serde(default)]
+    pub label: u8,
 }
 
 #[derive(Serialize, Deserialize, Clone, Debug, PartialEq)]
@@ -246,6 +253,12 @@ fn build_bundle(b: &BundleSpec) -> SpendBundle {
             (p, vec![0x80], ph)
         } else {
             (vec![1], solution_bytes(sp), v.puzzle_hash_of_1)
+        };
+        let ph = match sp.label {
+            0 => ph,
+            1 => v.puzzle_hash_of_1,
+            2 => [0u8; 32],
+            _ => sha(&[b"label", &[(sp.parent_seed % 3) as u8]]),
         };
         let coin = Coin::new(Bytes32::new(parent), Bytes32::new(ph), sp.amount);
         match &b.corrupt {
@@ -884,6 +897,9 @@ impl Engine for C10 {
         // with the generator's wrapper (no `1`, no `q`, no common amounts or vocabulary), in
         // bundles of at least opaque_min spends: whatever the size estimate charges per spend,
         // per bundle or per shared atom then shows undiluted
+        // one history in 15: about half of the spends carry a puzzle hash that is not the hash
+        // of their reveal (a constant, or a label shared with other spends)
+        let mislabelled = rng.chance(1, 15);
         let opaque_only = rng.chance(1, 12);
         let opaque_min = if rng.chance(1, 2) { 4 } else { 1 };
         let mut ops = vec![];
@@ -929,6 +945,7 @@ impl Engine for C10 {
                             // in the histories made of opaque spends only, a spend that follows
                             // others in its bundle quotes them one time in three
                             opaque: if opaque_only && !spends.is_empty() && rng.chance(1, 3) { 4 } else { 1 + rng.below(3) as u8 },
+                            label: if mislabelled && rng.chance(1, 2) { 1 + rng.below(3) as u8 } else { 0 },
                         });
                         if spends.last().unwrap().opaque != 4 {
                             recent.push(spends.last().unwrap().clone());
@@ -974,7 +991,7 @@ impl Engine for C10 {
                             CondSpec::Remark { .. } | CondSpec::RemarkTree { .. } => true,
                         });
                     }
-                    spends.push(SpendSpec { parent_seed: parent_counter, amount, conds, quoted: rng.chance(1, 4), backrefs: rng.chance(1, 10), opaque: 0 });
+                    spends.push(SpendSpec { parent_seed: parent_counter, amount, conds, quoted: rng.chance(1, 4), backrefs: rng.chance(1, 10), opaque: 0, label: if (mislabelled && rng.chance(1, 2)) || rng.chance(1, 40) { 1 + rng.below(3) as u8 } else { 0 } });
                     recent.push(spends.last().unwrap().clone());
                     if recent.len() > 12 {
                         recent.remove(0);
